@@ -35,7 +35,7 @@ pub struct Gs {
 }
 
 impl Gs {
-    fn to_json(&self) -> Value {
+    pub fn to_json(&self) -> Value {
         let mut o = json!({
             "apiVersion": "agones.dev/v1",
             "kind": "GameServer",
